@@ -105,6 +105,19 @@ def run(res, proofs_ok, proofs_why, only=None):
             why = judge(ln, out)
             if why:
                 bad.append({"case": ln, "profile": prof, "impl": out, "model": m, "why": why})
+    # the classification of a report must depend on that report and the clock only: the same report
+    # seen again after the clock moved, a future reference time overtaken by the clock (real
+    # process_messages with a moving virtual clock; only the status clause is judged here)
+    if only is None:
+        from props import _updater
+        tdiffs, tbad = _updater.run_timed("C08", res, rng, c.build_harness("debug")[0], 150 if res.tier == "quick" else 4000)
+        for b in tbad:
+            st = [w for w in b["why"] if "status" in w]
+            if st:
+                bad.append({"case": b["case"], "equivalent_untimed": b["equivalent_untimed"], "impl": b["impl"], "model": b["model"],
+                            "why": st + ["(record status codes: 0 Unknown, 1 Synchronized, 2 FreeRunning; the clock reads NOW + offset while each message is processed)"]})
+        status_of = lambda out: [x for k, x in enumerate(out.split()[1:]) if k % 7 == 6]
+        diffs += [d for d in tdiffs if status_of(d["impl"]) != status_of(d["model"])]
     res.extra["distinct_leap_codes"] = len(seen_leaps)
     res.samples = [{"case": lines[i], "impl": impl[i], "model": model[i]} for i in range(0, len(lines), max(1, len(lines) // 6))][:6]
     res.traces_validated = res.evaluations - len(diffs)
@@ -128,6 +141,9 @@ def replay(res, path):
     ln = case.get("case") if isinstance(case, dict) else None
     if ln is None and "first_differences" in r:
         ln = r["first_differences"][0]["case"]
+    if ln.startswith("updt"):
+        from props import _updater
+        return _updater.replay_property("C08", res, path)
     rc = 0
     for prof in ("debug", "release"):
         out = c.run_lines(c.build_harness(prof)[0], [ln])[0]
